@@ -51,6 +51,28 @@ def is_maximal_node_idx(ctx, callee):
     return False
 
 
+def node_idx_extreme(ctx, callee):
+    """'max' / 'min' when `callee` returns the literal greatest / least NodeIdx under the derived order (variants compare in declaration
+    order, then by payload), 'neither' when it returns another literal, None when this cannot be read off (no literal, or Ord is hand-written)"""
+    b = ctx.prog.bodies.get(callee)
+    adt = ctx.prog.adts.get(NODEIDX)
+    cmpb = ctx.prog.bodies.get("<%s as core::cmp::Ord>::cmp" % NODEIDX)
+    if b is None or adt is None or cmpb is None:
+        return None
+    if not all(i.j.get("exp") for i in cmpb.instrs() if i.kind in ("assign", "call")):
+        return None         # a hand-written order: declaration order says nothing
+    n = len(adt["variants"])
+    lits = [i for i in b.instrs() if i.kind == "assign" and i.rv_kind() == "agg" and i.rv.get("adt") == NODEIDX]
+    if len(lits) != 1 or not lits[0].ops or lits[0].ops[0].const is None or "val" not in lits[0].ops[0].const:
+        return None
+    vi, v = lits[0].rv.get("vi"), int(lits[0].ops[0].const["val"])
+    if vi == n - 1 and v in (2 ** 8 - 1, 2 ** 16 - 1, 2 ** 32 - 1, 2 ** 64 - 1):
+        return "max"
+    if vi == 0 and v == 0:
+        return "min"
+    return "neither"
+
+
 def range_bound_rule(ctx, oid, key, side):
     """side='pred': the upper bound of the by-end map must include arrival == node start;
        side='succ': the lower bound of the by-start map must include start == node end"""
@@ -108,6 +130,11 @@ def range_bound_rule(ctx, oid, key, side):
                 verdicts.append(("ok", ins, "inclusive upper bound at the largest node index: ties are kept"))
             elif rk == "to_incl" and idx_src == SMALLEST:
                 verdicts.append(("bad", ins, "`..=(start_time, smallest())` keeps only the smallest index among the ties"))
+            elif rk == "to_incl" and idx_src is not None and node_idx_extreme(ctx, idx_src) == "neither":
+                verdicts.append(("bad", ins, "the index of the inclusive upper bound (%s) is not the greatest NodeIdx under the derived order "
+                                 "(variants are declared as %s): nodes of a later variant that end exactly at the start time are cut off "
+                                 "although can_reach admits them" % (idx_src.split("::")[-1] + "()",
+                                                                     ", ".join(v["name"] for v in ctx.prog.adts[NODEIDX]["variants"]))))
             elif idx_src is None and "param:3" in fd.slice_operand_pure(bound.instr, i_op)["atoms"] \
                     and not any(a.startswith("call:") for a in fd.slice_operand_pure(bound.instr, i_op)["atoms"]):
                 verdicts.append(("bad", ins, "the upper bound uses the node's own index: predecessors that end exactly at the start "
@@ -115,7 +142,11 @@ def range_bound_rule(ctx, oid, key, side):
             else:
                 verdicts.append(("undecided", ins, "upper bound form not recognised"))
         else:
-            if idx_src == SMALLEST:
+            if idx_src == SMALLEST and node_idx_extreme(ctx, SMALLEST) == "neither":
+                verdicts.append(("bad", ins, "NodeIdx::smallest() is not the least NodeIdx under the derived order (variants are declared as %s): "
+                                 "nodes of an earlier variant that start exactly at the end time are skipped"
+                                 % ", ".join(v["name"] for v in ctx.prog.adts[NODEIDX]["variants"])))
+            elif idx_src == SMALLEST:
                 verdicts.append(("ok", ins, "inclusive lower bound at the smallest node index: ties are kept"))
             elif idx_src is not None and is_maximal_node_idx(ctx, idx_src):
                 verdicts.append(("bad", ins, "lower bound at the largest node index skips every node starting exactly at the end time"))
